@@ -26,12 +26,12 @@ RULES = {
     'R9': 'a run that follows a stop knows about the work already queued: before its first poll the pending-work count the timeout choice depends on is made up from the levels\' todo counters',
     'R10': 'signal_del purges queued deliveries at every priority (they are queued at the priority the registration had then, which signal_mod can change), or the priority cannot change while deliveries are queued',
     'R11': 'an entry is findable by descriptor number only while it stands for a registration: a refused add leaves the slot without a number and check (as an emptied slot), and a successful add retires an entry that is being dispatched right now under the same number (the descriptor was closed and its number reused inside its own callback)',
-    'R12': 'every signal number qb_loop_signal_add accepts can get the library\'s handler: the installation loop covers all numbers below NSIG',
+    'R12': 'every signal number qb_loop_signal_add accepts can get the library\'s handler: the installation loop covers all numbers below NSIG, and installs the handler for every number that is registered - under no further condition (signal_del and signal_mod reset a number to SIG_DFL first and rely on it)',
     'R13': 'a descriptor whose callback asks to be removed (negative return) leaves the polling driver as well: on that edge the driver\'s del is called (unless the callback has deleted the entry itself) before the entry is marked deleted - a descriptor that stays open would stay in the kernel\'s set, be reported in every iteration and be refused when added again',
     'R14': 'a signal callback may delete its own registration: the delivery being dispatched is noted, qb_loop_signal_del detaches it (clears its cloned_from), and after the callback the registration is dereferenced only where it is still attached',
     'R15': 'a full table is an error, not an abort: where an add asks a helper for a free slot and the helper can hand back the (negative) result of the failed table growth, that result is tested before it is used as a slot index - in the descriptor add and in the timer add (the table holds 65536 entries; slots of deleted descriptors come back only at the next poll)',
 }
-FLOORS = {'R1': 6, 'R2': 6, 'R3': 12, 'R4': 9, 'R5': 3, 'R6': 7, 'R7': 1, 'R8': 2, 'R9': 1, 'R10': 1, 'R11': 2, 'R12': 1, 'R13': 1, 'R14': 3, 'R15': 2}
+FLOORS = {'R1': 6, 'R2': 6, 'R3': 12, 'R4': 9, 'R5': 3, 'R6': 7, 'R7': 1, 'R8': 2, 'R9': 1, 'R10': 1, 'R11': 2, 'R12': 2, 'R13': 1, 'R14': 3, 'R15': 2}
 
 
 def run(ctx):
@@ -621,6 +621,17 @@ def r12(ctx):
                 for a in atoms_of(b.cond, lab):
                     if a.ls == iv and a.op in ('<', '<=') and a.rc is not None:
                         bound = a.rc if a.op == '<' else a.rc + 1
+    # every number that is (still) registered gets the handler, whatever was installed before: signal_del / signal_mod have just
+    # reset the number they gave up to SIG_DFL and count on this loop to put the handler back for a second registration of it
+    adds_ = list(f.calls('sigaddset'))
+    if not adds_:
+        raise AnalysisBroken('_adjust_sigactions_: the registered numbers are not collected (sigaddset)')
+    gk = lambda ev: {a.key() for (a, _e) in f.guards(ev)}
+    extra = gk(acts[0]) - set().union(*[gk(a_) for a_ in adds_])
+    ctx.check('R12', 'handler-installed-for-every-registered-number', not extra, acts[0],
+              'sigaction runs under the same conditions under which a number is taken into the set of registered signals',
+              'the handler is installed only if also %s: a number whose handler signal_del / signal_mod has just reset to SIG_DFL, and which another registration still wants, stays at the default action (its callback never runs again; SIGINT, SIGUSR1 ... kill the process)'
+              % ' and '.join('%s %s %s' % k for k in sorted(extra)))
     # the highest signal number of this platform: the constant evaluator's value of the bound must reach NSIG
     import signal as _signal
     nsig = getattr(_signal, 'NSIG', None)      # one more than the highest signal number of this platform
